@@ -256,3 +256,135 @@ def groups(v, depth, k):
     for key in g:
         g[key].sort(key=lambda t: t[0])
     return g
+
+
+# ------------------------------------------------------------------ C03 reducers
+
+I64 = (-(1 << 63), (1 << 63) - 1)
+
+
+def _wrap(x, signed=True, bits=64):
+    m = 1 << bits
+    x %= m
+    if signed and x >= m >> 1:
+        x -= m
+    return x
+
+
+class LeafKind(object):
+    """how to combine leaves of one dtype"""
+
+    def __init__(self, dtype):
+        import numpy as np
+        self.dtype = dtype
+        dt = np.dtype(dtype)
+        self.kind = dt.kind          # b i u f c M m
+        self.np = dt
+        self.prefix = None
+        if self.kind in "Mm":
+            self.prefix = dt.str.lstrip("<>=|")
+
+    def decode(self, x):
+        if self.prefix is not None:
+            return int(x.split(":")[1])
+        return x
+
+    def encode(self, x):
+        if self.prefix is not None:
+            return "%s:%d" % (self.prefix, x)
+        return x
+
+
+def reduce_group(name, members, lk, mask):
+    """members: [(kth coordinate, leaf or None)] in order; -> reduced value (model value)"""
+    import numpy as np
+    vals = [(i, lk.decode(x)) for i, x in members if x is not None]
+    k = lk.kind
+    if mask and not vals:
+        return None                      # mask_identity: a group without elements gives None for every reducer
+    if name == "count":
+        return len(vals)
+    if name == "count_nonzero":
+        if k in "Mm":
+            raise NoOpinion("count_nonzero of datetimes")
+        return sum(1 for _, x in vals if x != 0)
+    if name == "any":
+        if k in "Mm":
+            raise NoOpinion("any of datetimes")
+        return any(x != 0 for _, x in vals)
+    if name == "all":
+        if k in "Mm":
+            raise NoOpinion("all of datetimes")
+        return all(x != 0 for _, x in vals)
+    if name in ("sum", "prod"):
+        if k in "Mm":
+            raise NoOpinion("sum/prod of datetimes")
+        if k in "biu":
+            acc = 0 if name == "sum" else 1
+            for _, x in vals:
+                acc = acc + int(x) if name == "sum" else acc * int(x)
+            return _wrap(acc, signed=(k != "u"))
+        if k == "f":
+            acc = lk.np.type(0 if name == "sum" else 1)
+            with np.errstate(all="ignore"):
+                for _, x in vals:
+                    acc = lk.np.type(acc + lk.np.type(x)) if name == "sum" else lk.np.type(acc * lk.np.type(x))
+            return float(acc)
+        if k == "c":
+            acc = lk.np.type(0 if name == "sum" else 1)
+            with np.errstate(all="ignore"):
+                for _, x in vals:
+                    acc = lk.np.type(acc + lk.np.type(x)) if name == "sum" else lk.np.type(acc * lk.np.type(x))
+            return complex(acc)
+    if name in ("min", "max", "argmin", "argmax"):
+        if not vals:
+            if mask:
+                return None
+            if name in ("argmin", "argmax"):
+                return -1
+            if lk.dtype == "int64":
+                return I64[1] if name == "min" else I64[0]
+            if k == "f":
+                return float("inf") if name == "min" else float("-inf")
+            raise NoOpinion("identity of min/max for this dtype without mask_identity")
+        if k == "c":
+            key = lambda t: (t[1].real, t[1].imag)      # noqa: E731  (lexicographic, as the complex kernels do)
+        elif k == "b":
+            key = lambda t: int(t[1])                   # noqa: E731
+        else:
+            key = lambda t: t[1]                        # noqa: E731
+        best = vals[0]
+        for t in vals[1:]:
+            if name in ("min", "argmin"):
+                if key(t) < key(best):
+                    best = t
+            else:
+                if key(t) > key(best):
+                    best = t
+        if name in ("argmin", "argmax"):
+            return best[0]
+        if k == "c":
+            if name in ("min", "max"):
+                raise NoOpinion("min/max of complex")
+        return lk.encode(best[1])
+    raise ValueError(name)
+
+
+def reduce(v, name, axis, mask, keepdims, depth, lk):
+    """reference reducer on a nested value of uniform `depth`"""
+    k = posaxis(axis, depth)
+
+    def combine(members, d):
+        # members: [(coordinate along the reduced axis, value d levels above the leaves)]
+        if d == 0:
+            return reduce_group(name, members, lk, mask)
+        lists = [(i, m) for i, m in members if m is not None]      # a missing list is skipped
+        n = max([len(m) for _, m in lists] or [0])
+        return [combine([(i, m[j]) for i, m in lists if j < len(m)], d - 1) for j in range(n)]
+
+    def at_axis(lst):
+        if not is_list(lst):
+            raise Refuse("axis exceeds depth")
+        out = combine(list(enumerate(lst)), depth - k - 1)
+        return [out] if keepdims else out
+    return map_level(v, k, at_axis)
